@@ -70,8 +70,10 @@ Opens(c, h, dh) == c.t = "enc" /\ (Variant = "noaead" \/ (c.h = h /\ c.dh = dh))
 \* a frame: 2-byte length prefix (ok / larger than the body: the reader starves / smaller), fields,
 \* extra bytes inside the frame; ghosts: who produced the bytes, and whether they are that producer's
 \* unaltered output for this position of this exchange
-Frame(f, by) == [pfx |-> "ok", f |-> f, ext |-> FALSE, by |-> by, orig |-> TRUE]
-JunkFrame == [pfx |-> "ok", f |-> <<Junk>>, ext |-> FALSE, by |-> "M", orig |-> FALSE]
+\* (le: the length of the frame was already edited - two length edits of one message can undo each other
+\* at the byte level, so the attacker model allows one per message)
+Frame(f, by) == [pfx |-> "ok", f |-> f, ext |-> FALSE, le |-> FALSE, by |-> by, orig |-> TRUE]
+JunkFrame == [pfx |-> "ok", f |-> <<Junk>>, ext |-> FALSE, le |-> TRUE, by |-> "M", orig |-> FALSE]
 NF(k) == CASE k = 1 -> 1 [] k = 2 -> 3 [] OTHER -> 2
 
 \* message 2 = e, enc(s), enc(payload): h = responder's hash after message 1, re = remote ephemeral
@@ -207,11 +209,13 @@ EditsOf(s) ==
         n == Len(fr.f)
     IN {[kind |-> "drop", a |-> 0]}
        \cup (IF fr.pfx = "ok"
-             THEN {[kind |-> "dup", a |-> 0], [kind |-> "inject", a |-> 0], [kind |-> "starve", a |-> 0],
-                   [kind |-> "lensmall", a |-> 0]}
+             THEN {[kind |-> "dup", a |-> 0], [kind |-> "inject", a |-> 0]}
+                  \cup {[kind |-> "flip", a |-> i] : i \in {j \in 1..n : fr.f[j] # JunkOf(fr.f[j])}}
+             ELSE {})
+       \cup (IF fr.pfx = "ok" /\ ~fr.le
+             THEN {[kind |-> "starve", a |-> 0], [kind |-> "lensmall", a |-> 0]}
                   \cup {[kind |-> "truncfix", a |-> b] : b \in 0..(n - 1)}
                   \cup {[kind |-> "extfix", a |-> b] : b \in 0..n}
-                  \cup {[kind |-> "flip", a |-> i] : i \in {j \in 1..n : fr.f[j] # JunkOf(fr.f[j])}}
              ELSE {})
        \cup (IF S2Has(s.cfg, s.k) THEN {[kind |-> "splice", a |-> 0]} ELSE {})
        \cup (IF s.k = 2 \/ (s.k = 3 /\ s.m2 # <<>>) THEN {[kind |-> "reflect", a |-> 0]} ELSE {})
@@ -222,11 +226,11 @@ ApplyEdit(s, e) ==
   IN CASE e.kind = "drop"     -> <<>>
        [] e.kind = "dup"      -> <<fr, [fr EXCEPT !.orig = FALSE]>>
        [] e.kind = "inject"   -> <<fr, JunkFrame>>
-       [] e.kind = "starve"   -> <<[fr EXCEPT !.pfx = "big", !.orig = FALSE]>>
-       [] e.kind = "lensmall" -> <<[fr EXCEPT !.pfx = "small", !.orig = FALSE]>>
-       [] e.kind = "truncfix" -> <<[fr EXCEPT !.f = SubSeq(fr.f, 1, e.a), !.ext = FALSE, !.orig = FALSE]>>
+       [] e.kind = "starve"   -> <<[fr EXCEPT !.pfx = "big", !.le = TRUE, !.orig = FALSE]>>
+       [] e.kind = "lensmall" -> <<[fr EXCEPT !.pfx = "small", !.le = TRUE, !.orig = FALSE]>>
+       [] e.kind = "truncfix" -> <<[fr EXCEPT !.f = SubSeq(fr.f, 1, e.a), !.ext = FALSE, !.le = TRUE, !.orig = FALSE]>>
        [] e.kind = "extfix"   -> <<[fr EXCEPT !.f = [i \in 1..n |-> IF i > e.a THEN JunkOf(fr.f[i]) ELSE fr.f[i]],
-                                               !.ext = TRUE, !.orig = FALSE]>>
+                                               !.ext = TRUE, !.le = TRUE, !.orig = FALSE]>>
        [] e.kind = "flip"     -> <<[fr EXCEPT !.f[e.a] = JunkOf(fr.f[e.a]), !.orig = FALSE]>>
        [] e.kind = "splice"   -> <<S2Msg(s.cfg, s.k)>>
        [] OTHER (* reflect: the target's own last message *) ->
@@ -248,8 +252,11 @@ Process(s0, k, frames) ==
       s1 == Step(s0, frames[1])
   IN IF Len(frames) > 1 THEN Step(s1, frames[2]) ELSE s1
 
+\* (a starved reader would swallow whatever comes next as the rest of the body it waits for; what that
+\* parses to depends on byte counts, so nothing more is delivered to it: the attacker can only go away)
+TargetStarved(s) == IF s.k = 2 THEN s.iPo ELSE s.rPo
 DeliverN ==
-  /\ Len(st.air) > 0
+  /\ Len(st.air) > 0 /\ ~TargetStarved(st)
   /\ LET s1 == Process([st EXCEPT !.air = <<>>, !.out = <<>>], st.k, st.air)
          s2 == [s1 EXCEPT !.air = s1.out, !.out = <<>>, !.k = IF s1.out # <<>> THEN (IF st.k = 2 THEN 3 ELSE 2) ELSE 0,
                           !.tr = Append(@, "deliver")]
@@ -293,11 +300,11 @@ ForgeN ==
 
 \* ---- nothing in flight any more: the attacker closes both connections
 CloseN ==
-  /\ st.air = <<>>
+  /\ st.air = <<>> \/ TargetStarved(st)
   /\ st.iS = "w2" \/ st.rS \in {"w1", "w3"}
   /\ LET s2 == [st EXCEPT !.iS = IF @ = "w2" THEN "fail" ELSE @, !.rS = IF @ \in {"w1", "w3"} THEN "fail" ELSE @,
                           !.k = 0, !.tr = Append(@, "close")]
-     IN /\ st' = s2
+     IN /\ st' = [s2 EXCEPT !.air = <<>>]
         /\ op' = [name |-> "close"] @@ Obs(s2)
 
 NextN == EditN \/ DeliverN \/ ForgeN \/ CloseN
@@ -380,12 +387,17 @@ TVerdict(c, exp) ==
 
 TExpID(e) == CASE e = "M" -> "M" [] e = "V" -> "V" [] OTHER -> NoID
 InitT ==
-  \E mal \in {"client", "server"}, e \in {"M", "V", "empty"} :
-    /\ st = [part |-> "T", mal |-> mal, exp |-> e, cert |-> TGenuine, muts |-> 0, tr |-> <<>>,
-             done |-> FALSE, ok |-> FALSE, rem |-> NoID]
-    /\ op = [name |-> "startT", mal |-> mal, exp |-> e]
+  \/ \E mal \in {"client", "server"}, e \in {"M", "V", "empty"} :
+       /\ st = [part |-> "T", mal |-> mal, exp |-> e, ec |-> "-", es |-> "-", cert |-> TGenuine, muts |-> 0, tr |-> <<>>,
+                done |-> FALSE, ok |-> FALSE, rem |-> NoID]
+       /\ op = [name |-> "startT", mal |-> mal, exp |-> e]
+  \* two honest endpoints C (client) and S (server), each with its own expected-peer setting
+  \/ \E ec \in {"match", "diff", "empty"}, es \in {"match", "diff", "empty"} :
+       /\ st = [part |-> "T", mal |-> "none", exp |-> "-", ec |-> ec, es |-> es, cert |-> TGenuine, muts |-> 0, tr |-> <<>>,
+                done |-> FALSE, ok |-> FALSE, rem |-> NoID]
+       /\ op = [name |-> "startT", mal |-> "none", ec |-> ec, es |-> es]
 MutateT ==
-  /\ ~st.done /\ st.muts < TMaxMut
+  /\ ~st.done /\ st.muts < TMaxMut /\ st.mal # "none"
   /\ \E mu \in TMuts(st.cert) :
        /\ TApply(st.cert, mu) # st.cert
        /\ st' = [st EXCEPT !.cert = TApply(st.cert, mu), !.muts = @ + 1, !.tr = Append(@, mu.m \o ":" \o mu.a)]
@@ -394,22 +406,32 @@ MutateT ==
 \* malicious side (an unmodified transport apart from its certificate, expecting nobody) accepts the
 \* honest certificate - as a client it learns of the server's refusal at its first Read
 HandshakeT ==
-  /\ ~st.done
+  /\ ~st.done /\ st.mal # "none"
   /\ LET v == TVerdict(st.cert, TExpID(st.exp)) IN
      /\ st' = [st EXCEPT !.done = TRUE, !.ok = v.ok, !.rem = v.rem, !.tr = Append(@, "handshake")]
      /\ op' = [name |-> "handshake", hok |-> v.ok, hrem |-> v.rem, why |-> v.why,
                \* a malicious client completes its own handshake even when the server refuses it
                mok |-> (v.ok \/ (st.mal = "client" /\ v.why \notin {"nocert"})),
                mread |-> v.ok]
-NextT == MutateT \/ HandshakeT
+\* honest against honest: the client verifies the server's certificate during the handshake; the server
+\* verifies the client's after the client has already finished (TLS 1.3), so a client refused by the
+\* server returns success and learns of the refusal at its first Read
+HonestT ==
+  /\ ~st.done /\ st.mal = "none"
+  /\ LET cok == st.ec \in {"match", "empty"}
+         sok == cok /\ st.es \in {"match", "empty"}
+     IN /\ st' = [st EXCEPT !.done = TRUE, !.ok = cok /\ sok, !.tr = Append(@, "honest")]
+        /\ op' = [name |-> "honest", cok |-> cok, sok |-> sok, crem |-> IF cok THEN "S" ELSE NoID,
+                  srem |-> IF sok THEN "C" ELSE NoID, cread |-> cok /\ sok]
+NextT == MutateT \/ HandshakeT \/ HonestT
 \* whoever is accepted is the holder of the identity key "M" (nobody else's private key is in the
 \* malicious endpoint's hands), under the certificate it really controls, in the one-certificate form
-AuthT == (st.part = "T" /\ st.done /\ st.ok) =>
+AuthT == (st.part = "T" /\ st.mal # "none" /\ st.done /\ st.ok) =>
            /\ st.rem = "M"
            /\ st.cert.key = "kM" /\ st.cert.chain = 1 /\ Len(st.cert.exts) = 1
            /\ st.cert.exts[1] = TExt("M", Sig("M", "kM"))
-ExpectT == (st.part = "T" /\ st.done /\ st.ok /\ st.exp # "empty") => st.rem = TExpID(st.exp)
-ReachAcceptT == ~(st.part = "T" /\ st.done /\ st.ok)
+ExpectT == (st.part = "T" /\ st.mal # "none" /\ st.done /\ st.ok /\ st.exp # "empty") => st.rem = TExpID(st.exp)
+ReachAcceptT == ~(st.part = "T" /\ st.mal # "none" /\ st.done /\ st.ok)
 ReachVictimCertT == ~(st.part = "T" /\ st.cert = [key |-> "kV", exts |-> <<TExt("V", Sig("V", "kV"))>>, chain |-> 1])
 
 (***************************************************************************)
